@@ -4,7 +4,10 @@ request : isaff <pkgEco> <pkgName> <pkgVersion> <nAffected> { <eco> <name> <vers
           versions = v.v.v   events = k:v,k:v with k ∈ {i,f,l}
           a version token v is rank + 100·s: rank (v % 100) in the ecosystem's order, s = 1 for the alternative spelling of
           that rank (compares equal, different string); explicit `versions` lists are matched by spelling (the token itself)
-reply   : aff=<0|1> wf=<0|1> spec=<0|1>
+reply   : aff=<0|1> wf=<0|1> spec=<0|1> tie=<0|1> old=<0|1>
+          aff  = the model of the (repaired) code; wf = every range is well formed (`WF`: ordered by (version, kind) the events
+          alternate — events may share a version); spec = the order-free specification `osvDecl` at record level (`specAffectedB`);
+          tie  = some range has two events on one rank; old = the decision procedure before the tie repair (informational, not compared)
 `known` ecosystems are 0 (npm), 1 (Maven), 2 (PyPI).
 -/
 import Scalibr.Base.Wire
@@ -44,6 +47,18 @@ def parseAffected : Nat → List String → Option (List Affected × List String
 
 def known (e : Nat) : Bool := e < 3
 
+def hasTie : List Ev → Bool
+  | [] => false
+  | e :: es => es.any (fun x => x.v = e.v) || hasTie es
+
+/-- `isAffected` with the decision procedure before the tie repair (`rangeDecisionOld`); informational only -/
+def isAffectedOld (vuln : List Affected) (p : Pkg) : Bool :=
+  if !known p.eco then false else
+  vuln.any fun a =>
+    (a.eco = p.eco && a.name = p.name) &&
+      (a.versions.contains p.vid ||
+       a.ranges.any fun r => rangeApplies a r && rangeDecisionOld r.events p.version)
+
 def handle (line : String) : String :=
   match line.splitOn " " with
   | "isaff" :: pe :: pn :: pv :: na :: rest =>
@@ -53,7 +68,8 @@ def handle (line : String) : String :=
       | some (vuln, []) =>
         let p : Pkg := ⟨pe, pn, pv % 100, pv⟩
         let wf := vuln.all fun a => a.ranges.all fun r => WF r.events
-        s!"aff={boolStr (isAffected known vuln p)} wf={boolStr wf} spec={boolStr (specAffectedB known vuln p)}"
+        let tie := vuln.any fun a => a.ranges.any fun r => hasTie r.events
+        s!"aff={boolStr (isAffected known vuln p)} wf={boolStr wf} spec={boolStr (specAffectedB known vuln p)} tie={boolStr tie} old={boolStr (isAffectedOld vuln p)}"
       | _ => "bad-op"
     | _, _, _, _ => "bad-op"
   | _ => "bad-op"
